@@ -382,7 +382,8 @@ class _FoldConstants(pyc.CodeVisitor):
             map1, map2 = elements.elements
             if map2.typ[0] != 'map':
               # We have some malformed code, e.g. {**42}
-              name = map2.typ[1].__name__
+              tag, et = map2.typ
+              name = et.__name__ if tag == 'prim' else tag
               msg = f'Value after ** must be an mapping, not {name}'
               raise ConstantError(msg, op)
             tag1, (kt1, vt1) = map1.typ
